@@ -23,10 +23,33 @@ Inductive c03_read :=
    that is stored and acknowledged but not yet published (revision > ph_cur) is. *)
 Record c03_phase := mk_phase { ph_ops : list wop; ph_floor : N; ph_dump : raw_store; ph_cur : N; ph_reads : list c03_read }.
 
+(* the engine's GetPartitions answers as recorded by the driver: (start, end) -> result *)
+Definition pcall := (bytes * bytes * list part)%type.
+
+(* the recorded partition function; an unrecorded call yields no partition at all, so that it shows *)
+Fixpoint parts_of (calls : list pcall) (s e : bytes) : list part :=
+  match calls with
+  | [] => []
+  | (s', e', ps) :: t => if beqb s' s && beqb e' e then ps else parts_of t s e
+  end.
+
 Record c03_case := mk_c03 {
   c_ck : bytes;                 (* the compact key of the backend's configuration *)
   c_compat : bool;              (* Config.EnableEtcdCompatibility *)
+  c_calls : list pcall;         (* [] = an engine that reports one partition (memkv, Badger, unsplit TiKV) *)
   c_phases : list c03_phase }.
+
+Definition c03_partitioned (c : c03_case) : bool := match c_calls c with [] => false | _ => true end.
+Definition c03_parts (c : c03_case) : partition_fn := match c_calls c with [] => single_part | cs => parts_of cs end.
+
+(* sorting streamed key-values by key: the workers of several partitions send in any order *)
+Fixpoint insert_okv (x : okv) (l : list okv) : list okv :=
+  match l with
+  | [] => [x]
+  | y :: t => if bltb (okv_key y) (okv_key x) then y :: insert_okv x t else x :: l
+  end.
+Definition sort_okv (l : list okv) : list okv := fold_right insert_okv [] l.
+Definition stream_order (srt : bool) (l : list okv) : list okv := if srt then sort_okv l else l.
 
 (* ---------- client-visible history ---------- *)
 Definition op_version (o : wop) : list (@vrec (option bytes)) :=
@@ -167,36 +190,37 @@ Definition stream_shape (R : N) (out : list smsg) : bool :=
 Definition stream_kvs (out : list smsg) : list okv := flat_map m_kvs out.
 
 (* ---------- check: the model on the dump reproduces every response ---------- *)
-Definition read_check (ck : bytes) (compat : bool) (ph : c03_phase) (q : c03_read) : bool :=
+Definition read_check (ck : bytes) (compat : bool) (parts : partition_fn) (ph : c03_phase) (q : c03_read) : bool :=
   let s := ph_dump ph in
   let fv := lookup ck s in
   match q with
   | QGet k rev out => get_resp_eqb (get_model s (ph_cur ph) k rev) out
-  | QList a b rev limit out => list_resp_eqb (list_model s fv single_part (ph_cur ph) a b rev limit) out
-  | QCount a b out => count_resp_eqb (count_model s fv single_part compat (ph_cur ph) a b) out
-  | QStream a b rev out => stream_check (stream_model s fv single_part (ph_cur ph) (encode a 0) (encode b 0) rev) out
+  | QList a b rev limit out => list_resp_eqb (list_model s fv parts (ph_cur ph) a b rev limit) out
+  | QCount a b out => count_resp_eqb (count_model s fv parts compat (ph_cur ph) a b) out
+  | QStream a b rev out => stream_check (stream_model s fv parts (ph_cur ph) (encode a 0) (encode b 0) rev) out
   end.
 
-Definition phase_check (ck : bytes) (compat : bool) (ph : c03_phase) : bool :=
-  forallb (read_check ck compat ph) (ph_reads ph).
+Definition phase_check (ck : bytes) (compat : bool) (parts : partition_fn) (ph : c03_phase) : bool :=
+  forallb (read_check ck compat parts ph) (ph_reads ph).
 
+(* the compaction record: absent before the first compaction, be64 of the running floor afterwards *)
 Definition floor_rec_ok (ck : bytes) (d : raw_store) (F : N) : bool :=
-  if F =? 0 then true else opt_eqb beqb (lookup ck d) (Some (be64 F)).
+  opt_eqb beqb (lookup ck d) (if F =? 0 then None else Some (be64 F)).
 
 (* phases in order; acc = operations of earlier phases, F = highest compaction floor so far *)
-Fixpoint phases_check (ck : bytes) (compat : bool) (acc : list wop) (F : N) (phs : list c03_phase) : bool :=
+Fixpoint phases_check (ck : bytes) (compat : bool) (parts : partition_fn) (acc : list wop) (F : N) (phs : list c03_phase) : bool :=
   match phs with
   | [] => true
   | ph :: t =>
       let ops := acc ++ ph_ops ph in
       let F' := N.max F (ph_floor ph) in
-      phase_check ck compat ph
+      phase_check ck compat parts ph
       && compact_layout_ok (ph_dump ph) (hist_versions ops) F'
       && floor_rec_ok ck (ph_dump ph) F'
-      && phases_check ck compat ops F' t
+      && phases_check ck compat parts ops F' t
   end.
 
-Definition c03_check (c : c03_case) : bool := phases_check (c_ck c) (c_compat c) [] 0 (c_phases c).
+Definition c03_check (c : c03_case) : bool := phases_check (c_ck c) (c_compat c) (c03_parts c) [] 0 (c_phases c).
 
 (* ---------- oracle: the property on the implementation's responses ---------- *)
 Definition eff_rev (rev cur : N) : N := if rev =? 0 then cur else rev.
@@ -215,7 +239,7 @@ Definition in_range_enc (a b : bytes) (l : list okv) : list okv :=
   filter (fun x => bleb (encode a 0) (encode (okv_key x) (okv_rev x)) && bltb (encode (okv_key x) (okv_rev x)) (encode b 0)) l.
 
 (* does response `q` equal what the snapshot of version store hv prescribes?  `rng` = range restriction *)
-Definition read_meets (rng : bytes -> bytes -> list okv -> list okv)
+Definition read_meets (srt : bool) (rng : bytes -> bytes -> list okv -> list okv)
     (hv : list (@vrec (option bytes))) (cur : N) (q : c03_read) : bool :=
   match q with
   | QGet k rev out =>
@@ -237,7 +261,8 @@ Definition read_meets (rng : bytes -> bytes -> list okv -> list okv)
       end
   | QStream a b rev out =>
       stream_shape (eff_rev rev cur) out
-      && list_eqb okv_eqb (stream_kvs out) (rng a b (snapshot_spec hv (eff_rev rev cur)))   (* one partition: in key order *)
+      (* one partition: in key order; several: the workers' batches interleave, compared as a multiset *)
+      && list_eqb okv_eqb (stream_order srt (stream_kvs out)) (rng a b (snapshot_spec hv (eff_rev rev cur)))
   end.
 
 Definition bounds_alpha (q : c03_read) : bool :=
@@ -262,12 +287,12 @@ Definition in_scope (compat : bool) (hv : list (@vrec (option bytes))) (cur floo
   | QStream a b rev _ => bltb a b && (eff_rev rev cur <=? cur) && (floor <=? eff_rev rev cur)
   end.
 
-Definition read_verdict (hv : list (@vrec (option bytes))) (compat : bool) (cur floor : N) (q : c03_read) : option N :=
+Definition read_verdict (srt : bool) (hv : list (@vrec (option bytes))) (compat : bool) (cur floor : N) (q : c03_read) : option N :=
   if negb (in_scope compat hv cur floor q) then None
-  else if read_meets in_range hv cur q then None
-  else if negb (bounds_alpha q) && read_meets in_range_enc hv cur q then Some 2   (* finding C03-F2 *)
-  else if read_meets in_range (marker_as_deletion hv) cur q then Some 1            (* finding C03-F1 *)
-  else if negb (bounds_alpha q) && read_meets in_range_enc (marker_as_deletion hv) cur q then Some 2
+  else if read_meets srt in_range hv cur q then None
+  else if negb (bounds_alpha q) && read_meets srt in_range_enc hv cur q then Some 2   (* finding C03-F2 *)
+  else if read_meets srt in_range (marker_as_deletion hv) cur q then Some 1            (* finding C03-F1 *)
+  else if negb (bounds_alpha q) && read_meets srt in_range_enc (marker_as_deletion hv) cur q then Some 2
   else Some 0.
 
 Definition worst (x y : option N) : option N :=
@@ -278,49 +303,49 @@ Definition worst (x y : option N) : option N :=
   | None, y => y
   end.
 
-Definition phase_verdict (hv : list (@vrec (option bytes))) (compat : bool) (floor : N) (ph : c03_phase) : option N :=
-  fold_right (fun q acc => worst (read_verdict hv compat (ph_cur ph) floor q) acc) None (ph_reads ph).
+Definition phase_verdict (srt : bool) (hv : list (@vrec (option bytes))) (compat : bool) (floor : N) (ph : c03_phase) : option N :=
+  fold_right (fun q acc => worst (read_verdict srt hv compat (ph_cur ph) floor q) acc) None (ph_reads ph).
 
 (* "returns the same answer whenever it is asked again": the same read in two consecutive phases
    (the driver re-issues the reads of a phase, in order, at the start of the next one), revision
    explicit, readable in the earlier phase, not below the floor of the later one *)
-Definition same_answer (q1 q2 : c03_read) : bool :=
+Definition same_answer (srt : bool) (q1 q2 : c03_read) : bool :=
   match q1, q2 with
   | QGet k r (GetResp _ kv), QGet k' r' (GetResp _ kv') => negb (beqb k k' && (r =? r')) || opt_eqb vn_eqb kv kv'
   | QList a b r l (LResp _ kvs m), QList a' b' r' l' (LResp _ kvs' m') =>
       negb (beqb a a' && beqb b b' && (r =? r') && (l =? l')%Z) || (list_eqb okv_eqb kvs kvs' && Bool.eqb m m')
   | QStream a b r out, QStream a' b' r' out' =>
-      negb (beqb a a' && beqb b b' && (r =? r')) || list_eqb okv_eqb (stream_kvs out) (stream_kvs out')
+      negb (beqb a a' && beqb b b' && (r =? r')) || list_eqb okv_eqb (stream_order srt (stream_kvs out)) (stream_order srt (stream_kvs out'))
   | _, _ => true
   end.
 Definition read_rev (q : c03_read) : N :=
   match q with QGet _ r _ => r | QList _ _ r _ _ => r | QCount _ _ _ => 0 | QStream _ _ r _ => r end.
 
-Fixpoint stable_verdict (compat : bool) (hv1 hv2 : list (@vrec (option bytes))) (cur1 cur2 floor2 : N) (r1 r2 : list c03_read) : bool :=
+Fixpoint stable_verdict (srt compat : bool) (hv1 hv2 : list (@vrec (option bytes))) (cur1 cur2 floor2 : N) (r1 r2 : list c03_read) : bool :=
   match r1, r2 with
   | q1 :: t1, q2 :: t2 =>
-      (negb ((0 <? read_rev q1) && in_scope compat hv1 cur1 0 q1 && in_scope compat hv2 cur2 floor2 q2) || same_answer q1 q2)
-      && stable_verdict compat hv1 hv2 cur1 cur2 floor2 t1 t2
+      (negb ((0 <? read_rev q1) && in_scope compat hv1 cur1 0 q1 && in_scope compat hv2 cur2 floor2 q2) || same_answer srt q1 q2)
+      && stable_verdict srt compat hv1 hv2 cur1 cur2 floor2 t1 t2
   | _, _ => true
   end.
 
 Definition has_marker (hv : list (@vrec (option bytes))) : bool := negb (no_markerb hv).
 
 (* prev = the previous phase with the history up to it *)
-Fixpoint phases_verdict (compat : bool) (acc : list wop) (F : N) (prev : option (c03_phase * list wop)) (phs : list c03_phase) : option N :=
+Fixpoint phases_verdict (srt compat : bool) (acc : list wop) (F : N) (prev : option (c03_phase * list wop)) (phs : list c03_phase) : option N :=
   match phs with
   | [] => None
   | ph :: t =>
       let ops := acc ++ ph_ops ph in
       let hv := hist_versions ops in
       let F' := N.max F (ph_floor ph) in
-      let v := phase_verdict hv compat F' ph in
+      let v := phase_verdict srt hv compat F' ph in
       let st := match prev with
                 | Some (p, pops) =>
-                    if stable_verdict compat (hist_versions pops) hv (ph_cur p) (ph_cur ph) F' (ph_reads p) (ph_reads ph) then None else Some 0
+                    if stable_verdict srt compat (hist_versions pops) hv (ph_cur p) (ph_cur ph) F' (ph_reads p) (ph_reads ph) then None else Some 0
                 | None => None
                 end in
-      worst (worst v st) (phases_verdict compat ops F' (Some (ph, ops)) t)
+      worst (worst v st) (phases_verdict srt compat ops F' (Some (ph, ops)) t)
   end.
 
-Definition c03_oracle (c : c03_case) : option N := phases_verdict (c_compat c) [] 0 None (c_phases c).
+Definition c03_oracle (c : c03_case) : option N := phases_verdict (c03_partitioned c) (c_compat c) [] 0 None (c_phases c).
